@@ -181,10 +181,8 @@ func ExtTerm(e tls.TLSExtension) (string, bool) {
 	case *tls.UtlsPreSharedKeyExtension:
 		cached := "None"
 		cl := reflect.ValueOf(x).Elem().FieldByName("cachedLength")
-		if !cl.IsValid() {
-			return "", false
-		}
-		if !cl.IsNil() {
+		// the field was removed by fix C08-psk-len-after-edit; older trees still have it
+		if cl.IsValid() && !cl.IsNil() {
 			n := cl.Elem().Int()
 			if n < 0 {
 				return "", false
